@@ -113,6 +113,8 @@ c17_thick_g!(c01_c02_c17_q_g_thick_ties, 60, [((-6, -6), (-4, -5), 4), ((0, 0), 
 #[cfg(feature = "thorough")]
 c17_thick_g!(c01_c02_c17_t_g_thick_c, 120, [((0, 0), (9, 4), 4), ((-5, 6), (3, -7), 3), ((-6, -2), (6, 2), 6), ((1, -7), (-2, 8), 5), ((0, 0), (7, 7), 2), ((7, 0), (0, 7), 3)]);
 
+include!("generated/c17_lines.rs");
+
 /// Reachability twin.
 #[cfg_attr(kani, kani::proof, kani::unwind(18))]
 pub fn c17_q_twin_thin() {
